@@ -151,7 +151,8 @@ theorem closeWin_cons (st : Step) (r : List Step) :
 
 /-- a thread in the window stays there until it sets `closing` -/
 theorem inB_step {v : Variant} {st : Step} {r r' : List Step} (m : Moves v st r r')
-    (d : disc (st :: r) = true) (pd : pdisc (st :: r) = true) (h : inB (st :: r) = true) :
+    (d : disc (st :: r) = true) (pd : pdisc (st :: r) = true) (h : inB (st :: r) = true)
+    (hnwr : isWrite st = false) :
     st = .setClosing true ∨ inB r' = true := by
   simp only [inB, Bool.and_eq_true] at h
   obtain ⟨hw, hn⟩ := h
@@ -170,6 +171,13 @@ theorem inB_step {v : Variant} {st : Step} {r r' : List Step} (m : Moves v st r 
     · simp only [inB, Bool.and_eq_true]; exact ⟨hwr, hn'⟩
     · rcases hs with hs | hs <;> subst hs <;> cases hstop
     · exfalso
+      have hs : st = .chkSock ∨ st = .chkClosed ∨ st = .chkClosing ∨ st = .chkBoth := by
+        rcases hs with hs | hs | hs | hs | hs
+        · exact Or.inl hs
+        · exact Or.inr (Or.inl hs)
+        · exact Or.inr (Or.inr (Or.inl hs))
+        · exact Or.inr (Or.inr (Or.inr hs))
+        · rw [hnwr] at hs; cases hs
       have hhead : headW2 r = false := by
         simp only [disc, Bool.and_eq_true] at d
         have := d.2
@@ -304,10 +312,38 @@ theorem pInv_step (v : Variant) (cfg : Cfg) (s : State) (t : Tid) (hva : v.close
         | nil => simp at this
         | cons a r2 => cases a <;> simp at this; subst this; exact ⟨r2, rfl⟩
       have hnoclose : hasClose s.sh.wire = false := I.p2 t (by rw [hv]; rfl)
-      have hp2 : (exec v t (Step.write1 f) (Step.write2 f :: r2) s.sh c).2.rest = .write2 f :: r2 := rfl
+      cases hsx : s.sh.sockShut with
+      | true =>
+        -- the socket has been shut: TransportFail, nothing written, on to the release
+        have hex := exec_write_shut v t (.write1 f) (.write2 f :: r2) s.sh c rfl hsx
+        have hp2 : (exec v t (Step.write1 f) (Step.write2 f :: r2) s.sh c).2.rest = toRelease (.write2 f :: r2) := by
+          rw [hex]
+        have hw : (exec v t (Step.write1 f) (Step.write2 f :: r2) s.sh c).1.wire = s.sh.wire := by rw [hex]
+        generalize exec v t (Step.write1 f) (Step.write2 f :: r2) s.sh c = p at m hi hp2 hw
+        refine ⟨hpd p m, had p m, ?_, ?_, ?_, ?_⟩
+        · intro hcw
+          rw [setTh_sh, hw, hnoclose] at hcw; cases hcw
+        · intro u hu
+          rw [setTh_sh, hw]
+          by_cases hut : u = t
+          · subst hut; rw [vArmed, hp2, armed_toRelease] at hu; cases hu
+          · rw [vo p u hut] at hu; exact I.p2 u hu
+        · rw [setTh_sh, hw]; exact I.p5
+        · intro u c2 g r3 hc2 hr3
+          rw [setTh_sh]
+          rcases current_after hh hc2 with ⟨hu, hcu⟩ | ⟨hu, _, rfl⟩ | ⟨hu, _, call3, rfl⟩
+          · rw [hw]; exact I.p6 u c2 g r3 hcu hr3
+          · have : headW2 p.2.rest = true := by rw [hr3]; rfl
+            rw [hp2, headW2_toRelease] at this; cases this
+          · have := compile_headW2 v cfg call3
+            simp only at hr3
+            rw [hr3] at this; cases this
+      | false =>
+      have hp2 : (exec v t (Step.write1 f) (Step.write2 f :: r2) s.sh c).2.rest = .write2 f :: r2 := by
+        simp [exec, hsx]
       have hw : (exec v t (Step.write1 f) (Step.write2 f :: r2) s.sh c).1.wire =
-          s.sh.wire ++ [⟨t, c.idx, false, descOf f c⟩] := rfl
-      have hz : (exec v t (Step.write1 f) (Step.write2 f :: r2) s.sh c).2.zout = c.zout := rfl
+          s.sh.wire ++ [⟨t, c.idx, false, descOf f c⟩] := by simp [exec, hsx]
+      have hz : (exec v t (Step.write1 f) (Step.write2 f :: r2) s.sh c).2.zout = c.zout := by simp [exec, hsx]
       generalize exec v t (Step.write1 f) (Step.write2 f :: r2) s.sh c = p at m hi hp2 hw hz
       have others_out : ∀ u, u ≠ t → holds (view v cfg (s.th u)) = false := lone hl
       have dt := disc_tail d
@@ -350,9 +386,14 @@ theorem pInv_step (v : Variant) (cfg : Cfg) (s : State) (t : Tid) (hva : v.close
         have hl : holds (Step.write2 f :: r) = true := by
           simp only [disc, Bool.and_eq_true] at d; simpa [holds] using d.1.2.1
         obtain ⟨pre, hpre, hprec⟩ := I.p6 t c f r hc hr
-        have hp2 : (exec v t (Step.write2 f) r s.sh c).2.rest = r := rfl
+        -- nobody is in the middle of a frame on a shut socket
+        have hsx : s.sh.sockShut = false := by
+          cases hsx : s.sh.sockShut with
+          | false => rfl
+          | true => have := B.W.shut hsx t; rw [hv] at this; cases this
+        have hp2 : (exec v t (Step.write2 f) r s.sh c).2.rest = r := by simp [exec, hsx]
         have hw : (exec v t (Step.write2 f) r s.sh c).1.wire =
-            s.sh.wire ++ [⟨t, c.idx, true, descOf f c⟩] := rfl
+            s.sh.wire ++ [⟨t, c.idx, true, descOf f c⟩] := by simp [exec, hsx]
         generalize exec v t (Step.write2 f) r s.sh c = p at m hi hp2 hw
         have others_out : ∀ u, u ≠ t → holds (view v cfg (s.th u)) = false := lone hl
         have hnw : noWrite r = true := by
@@ -418,7 +459,9 @@ theorem pInv_step (v : Variant) (cfg : Cfg) (s : State) (t : Tid) (hva : v.close
           · have hut := witness u hu
             subst hut
             rw [hv] at hu
-            rcases inB_step m d pd hu with h | h
+            have hnwr : isWrite st = false := by
+              cases st <;> first | rfl | exact absurd ⟨_, rfl⟩ hw1 | exact absurd ⟨_, rfl⟩ hw2
+            rcases inB_step m d pd hu hnwr with h | h
             · left; rw [hcg, h]
             · right; exact ⟨u, by rw [vB]; exact h⟩
         · intro u hu
